@@ -130,6 +130,8 @@ void h_misc(void)
 {
   TP = NEW(template_t); MP = NEW(mapping_t); PL = NEW(plist_t); RES = NEW(expr_t); PR = NEW(param_t); TY = NEW(type_t); XF = NEW(transfer_t);
   LK = NEW(linkage_t); CC = NEW(cc_t); INIT.f_ptr = nondet_bool() ? NEW(expr_t) : 0;
+  RES->__b0.f_category = nondet_int();      /* the mapping's result is a node of ANY kind (possibly itself a mapping) */
+  TY->__b0.__b0.f_category = nondet_int(); PR->__b0.__b0.__b0.__b0.__b0.f_category = nondet_int();
   __CPROVER_assert(@{template_parameters}(TP) == PL && @{template_result}(TP) == RES, "C15: a template's parameters / result are those of its mapping");
   __CPROVER_assert(@{parameter_default}(PR).f_ptr == INIT.f_ptr, "C15: a parameter's default value is its initializer (absent when there is none)");
   __CPROVER_assert(@{type_linkage}(TY) == LK, "C15: a type's linkage is the linkage of its transfer");
